@@ -23,10 +23,6 @@ fn endpoint() -> CdnEndpoint {
     }
 }
 
-// (Attempts to give the std slicing panic a "KF:" label failed: stubbing core::str::slice_error_fail
-// resolves but the panic is raised inline in `<Range<usize> as SliceIndex<str>>::index`, and stubs for
-// that generic trait impl do not resolve.  The failing check therefore carries std's name and Kani's
-// placeholder description.)
 macro_rules! build_url_len {
     ($name:ident, $len:expr, $unwind:expr) => {
         #[kani::proof]
@@ -73,10 +69,11 @@ build_url_len!(c20_build_url_len16, 16, 36);
 build_url_len!(c20_build_url_len32, 32, 68);
 // @end
 
-// @family prop=C20 tier=quick timeout=600 role=kf-build-url-short-key
-// @bounds content key of 0 and of 1 byte (concrete content), content type symbolic
+// @family prop=C20 tier=quick timeout=600 role=build-url-short-key
+// @bounds content key of 0 and of 1 byte (concrete content), content type symbolic (regression harnesses for the fixed slicing panic)
 // @encodes cascette_protocol::cdn::CdnClient::build_url
-// @assumes as c20_build_url_len02; EXPECTED TO FAIL on the unchanged tree: genuine defect (hex_key[..2] / hex_key[2..4] panic for keys shorter than 2 bytes; build_url is the first statement of the public download_range / download_with_resume / download_with_progress / get_file_size, and download slices the same way)
+// @assumes as c20_build_url_len02
+// @catches reintroduced hex_key[..2] / hex_key[2..4] slicing (panics for keys shorter than 2 bytes)
 build_url_len!(c20_kf_build_url_len00, 0, 4);
 build_url_len!(c20_kf_build_url_len01, 1, 6);
 // @end
@@ -157,16 +154,15 @@ pub fn confined_under(p: &[u8], root: &[u8]) -> bool {
     true
 }
 
-/// Well-formed relative key: not absolute, no ".." component.
+/// Well-formed relative key: every '/'-separated component is a normal name (non-empty, not "." and
+/// not ".."), hence not absolute and without a trailing separator.
 pub fn well_formed(k: &[u8]) -> bool {
-    if k.len() > 0 && k[0] == b'/' {
-        return false;
-    }
     let mut start = 0;
     let mut i = 0;
     while i <= k.len() {
         if i == k.len() || k[i] == b'/' {
-            if i - start == 2 && k[start] == b'.' && k[start + 1] == b'.' {
+            let n = i - start;
+            if n == 0 || (n == 1 && k[start] == b'.') || (n == 2 && k[start] == b'.' && k[start + 1] == b'.') {
                 return false;
             }
             start = i + 1;
@@ -234,7 +230,8 @@ macro_rules! disk_path {
             let bytes = path.as_os_str().as_encoded_bytes();
             let bytes2 = path2.as_os_str().as_encoded_bytes();
             if $raw {
-                assert!(confined_under(bytes, ROOT.as_bytes()), "KF: cache key escapes cache_dir (absolute key or '..' component)");
+                assert!(confined_under(bytes, ROOT.as_bytes()), "cache key escapes cache_dir (absolute key or '..' component)");
+                kani::cover!(b1[0] == b'/' || (L >= 2 && b1[0] == b'.' && b1[1] == b'.'), "absolute or parent-directory key");
             } else {
                 assert!(confined_under(bytes, ROOT.as_bytes()), "well-formed key must map below cache_dir");
                 assert!(bytes.len() == ROOT.len() + 1 + L, "path must be cache_dir/<key>");
@@ -269,7 +266,7 @@ macro_rules! disk_path {
 }
 
 // @family prop=C20 tier=quick timeout=900 role=disk-path-wellformed
-// @bounds two cache keys of the fixed length in the name (1, 2, 4 bytes), every byte symbolic over {'.', '/', 'a', '\\'}, first key assumed well-formed (not absolute, no ".." component); cache_dir "/c"; flat layout (use_subdirectories = false, as ProtocolCache configures it)
+// @bounds two cache keys of the fixed length in the name (1, 2, 4 bytes), every byte symbolic over {'.', '/', 'a', '\\'}, first key assumed well-formed (every component a normal name: non-empty, not "." / ".."); cache_dir "/c"; flat layout (use_subdirectories = false, as ProtocolCache configures it)
 // @encodes cascette_cache::disk_cache::DiskCache::get_file_path, cascette_cache::disk_cache::DiskCache::new
 // @assumes std::fs::create_dir_all stubbed to Ok; Instant::now / SystemTime::now stubbed (metrics start time); RandomState pinned; lexical normalisation (no symlinks); hashed-subdirectory layout not covered (format!)
 // @catches cache_dir dropped or replaced, key truncated / hashed / re-encoded so that two keys collide, separator missing
@@ -278,10 +275,11 @@ disk_path!(c20_disk_path_wellformed_len2, 2, 12, false);
 disk_path!(c20_disk_path_wellformed_len4, 4, 14, false);
 // @end
 
-// @family prop=C20 tier=quick timeout=900 role=kf-disk-path-raw-key
-// @bounds cache key of the fixed length in the name (1, 2, 4 bytes), every byte symbolic over {'.', '/', 'a', '\\'}, NOT filtered
+// @family prop=C20 tier=quick timeout=900 role=disk-path-raw-key
+// @bounds cache key of the fixed length in the name (1, 2, 4 bytes), every byte symbolic over {'.', '/', 'a', '\\'}, NOT filtered: the lexically normalised path stays under cache_dir for every key
 // @encodes cascette_cache::disk_cache::DiskCache::get_file_path
-// @assumes as c20_disk_path_wellformed_len1; EXPECTED TO FAIL on the unchanged tree: genuine defect (get_file_path joins the raw key: "/" or "/a" replaces cache_dir, ".." / "../a" leaves it)
+// @assumes as c20_disk_path_wellformed_len1
+// @catches raw join of the key (absolute key replaces cache_dir, ".." leaves it), filter keeping ParentDir / RootDir components
 disk_path!(c20_kf_disk_path_raw_len1, 1, 12, true);
 disk_path!(c20_kf_disk_path_raw_len2, 2, 12, true);
 disk_path!(c20_kf_disk_path_raw_len4, 4, 14, true);
@@ -327,7 +325,23 @@ macro_rules! endpoint_path {
                 ok &= c.is_ascii_alphanumeric() || c == b'/' || c == b'_' || c == b'-' || c == b'.';
                 i += 1;
             }
-            assert!(accepted == ok, "validate_endpoint differs from the documented whitelist");
+            // no leading '/', no "." / ".." segment
+            if b[0] == b'/' {
+                ok = false;
+            }
+            let mut start = 0;
+            let mut i = 0;
+            while i <= L {
+                if i == L || b[i] == b'/' {
+                    let n = i - start;
+                    if (n == 1 && b[start] == b'.') || (n == 2 && b[start] == b'.' && b[start + 1] == b'.') {
+                        ok = false;
+                    }
+                    start = i + 1;
+                }
+                i += 1;
+            }
+            assert!(accepted == ok, "validate_endpoint must accept exactly: whitelist characters, no leading '/', no '.' / '..' segment");
             kani::cover!(accepted, "accepted endpoint");
             if accepted {
                 // the cache key RibbitTactClient::query derives: "api/ribbit/<endpoint>"
@@ -335,6 +349,11 @@ macro_rules! endpoint_path {
                 let key = RawKey(mk_string::<L>("api/ribbit/", b));
                 let path = cache.verif_get_file_path(&key);
                 assert!(confined_under(path.as_os_str().as_encoded_bytes(), $root.as_bytes()), $msg);
+                // independent of get_file_path's own filtering: even a naive join of the accepted
+                // endpoint stays inside the namespace
+                let naive = mk_string::<L>("/c/api/ribbit/", b);
+                assert!(confined_under(naive.as_bytes(), b"/c/api/ribbit"), "accepted endpoint would leave api/ribbit under a plain join");
+                std::mem::forget(naive);
                 std::mem::forget(path);
                 std::mem::forget(key);
                 std::mem::forget(cache);
@@ -345,19 +364,20 @@ macro_rules! endpoint_path {
 }
 
 // @family prop=C20 tier=quick timeout=900 role=endpoint-confined
-// @bounds endpoint string of the fixed length in the name (1, 3, 5 bytes), every byte symbolic ASCII (0..=0x7f); accepted endpoints are turned into "api/ribbit/<endpoint>" and mapped by DiskCache::get_file_path (cache_dir "/c", flat layout)
+// @bounds endpoint string of the fixed length in the name (1, 3, 5 bytes), every byte symbolic ASCII (0..=0x7f); accepted endpoints are turned into "api/ribbit/<endpoint>" and mapped by DiskCache::get_file_path (cache_dir "/c", flat layout); both that path and the plain join must stay inside /c/api/ribbit
 // @encodes cascette_protocol::client::validate_endpoint, cascette_cache::disk_cache::DiskCache::get_file_path
 // @assumes the key prefix "api/ribbit/" is concatenated by the harness (query() builds it with format! inside an async network path); fmt::format stubbed (error text); create_dir_all stubbed; non-ASCII endpoints not covered (Unicode tables)
-// @catches a character dropped from / added to the whitelist ('\\', ':', space, NUL, '%'), validation skipped for some position, accepted endpoints of <= 5 bytes leaving cache_dir
-endpoint_path!(c20_endpoint_confined_len1, 1, 16, true, ROOT, "accepted endpoint leaves cache_dir");
-endpoint_path!(c20_endpoint_confined_len3, 3, 18, true, ROOT, "accepted endpoint leaves cache_dir");
-endpoint_path!(c20_endpoint_confined_len5, 5, 20, true, ROOT, "accepted endpoint leaves cache_dir");
+// @catches a character dropped from / added to the whitelist ('\\', ':', space, NUL, '%'), validation skipped for some position, leading '/' or '.' / '..' segments accepted again, accepted endpoints leaving cache_dir/api/ribbit
+endpoint_path!(c20_endpoint_confined_len1, 1, 20, true, "/c/api/ribbit", "accepted endpoint leaves cache_dir/api/ribbit");
+endpoint_path!(c20_endpoint_confined_len3, 3, 22, true, "/c/api/ribbit", "accepted endpoint leaves cache_dir/api/ribbit");
+endpoint_path!(c20_endpoint_confined_len5, 5, 24, true, "/c/api/ribbit", "accepted endpoint leaves cache_dir/api/ribbit");
 // @end
 
-// @family prop=C20 tier=quick timeout=900 role=kf-endpoint-escapes
-// @bounds endpoint of 2 bytes (ASCII symbolic) checked against the namespace directory /c/api/ribbit; endpoint of 8 bytes over {'.', '/', 'a', '-'} checked against cache_dir /c
+// @family prop=C20 tier=quick timeout=900 role=endpoint-traversal-regressions
+// @bounds endpoint of 2 bytes (ASCII symbolic; contains "..", "./", "/a") and endpoint of 8 bytes over {'.', '/', 'a', '-'} (contains "../../..", "a/../..", "/aaaaaaa"); same checks as c20_endpoint_confined_len1
 // @encodes cascette_protocol::client::validate_endpoint, cascette_cache::disk_cache::DiskCache::get_file_path
-// @assumes as c20_endpoint_confined_len1; EXPECTED TO FAIL on the unchanged tree: genuine defect (the whitelist admits '.' and '/': ".." leaves api/ribbit, "../../.." leaves cache_dir)
-endpoint_path!(c20_kf_endpoint_namespace_len2, 2, 18, true, "/c/api/ribbit", "KF: accepted endpoint leaves the api/ribbit namespace ('..' passes the whitelist)");
-endpoint_path!(c20_kf_endpoint_escapes_len8, 8, 24, false, ROOT, "KF: accepted endpoint leaves cache_dir ('../../..' passes the whitelist)");
+// @assumes as c20_endpoint_confined_len1
+// @catches '..' / '.' segments or absolute endpoints passing validation again (former defects)
+endpoint_path!(c20_kf_endpoint_namespace_len2, 2, 22, true, "/c/api/ribbit", "accepted endpoint leaves cache_dir/api/ribbit");
+endpoint_path!(c20_kf_endpoint_escapes_len8, 8, 28, false, "/c/api/ribbit", "accepted endpoint leaves cache_dir/api/ribbit");
 // @end
